@@ -60,16 +60,26 @@ async function load(msg) {
 
 // The application handler of a TS server: every method is a proxy to the kernel.
 function makeHandler(world, svc, sid) {
-  return new Proxy({}, {
+  // Methods behave like those of a class instance: they need their receiver. A route that
+  // detaches a method (const f = handler.m; f(ctx, req)) loses `this`, exactly as it would
+  // with a real handler object whose methods use their fields.
+  const target = { svc };
+  const proxy = new Proxy(target, {
     get(_t, prop) {
       if (typeof prop !== "string" || prop === "then") return undefined;
-      return (ctx, req) => new Promise((resolve, reject) => {
-        const hid = nextId++;
-        pendingHandle.set(hid, { resolve, reject });
-        out({ t: "handle", sid, hid, service: svc, method: prop, req, headers: ctx && ctx.headers, pathParams: ctx && ctx.pathParams });
-      });
+      return function (ctx, req) {
+        if (this !== proxy) {
+          throw new TypeError("handler method " + prop + " was called without its receiver (this is " + typeof this + ")");
+        }
+        return new Promise((resolve, reject) => {
+          const hid = nextId++;
+          pendingHandle.set(hid, { resolve, reject });
+          out({ t: "handle", sid, hid, service: svc, method: prop, req, headers: ctx && ctx.headers, pathParams: ctx && ctx.pathParams });
+        });
+      };
     },
   });
+  return proxy;
 }
 
 function simFetch(callId) {
